@@ -3,7 +3,7 @@
 From Coq Require Import String ZArith NArith List Bool Arith.
 From Coq Require Import Floats.SpecFloat.
 From Cfi Require Import Glue.Sx Py.PyStr Py.PyNum Py.PyBits Py.PyDate Model.Field Model.Line Model.Reader.
-From Cfi Require Import Proofs.FieldProofs Proofs.LineProofs Proofs.ReaderProofs Proofs.RegProofs.
+From Cfi Require Import Proofs.FieldProofs Proofs.LineProofs Proofs.ReaderProofs Proofs.RegProofs Proofs.DelimProofs.
 Import ListNotations.
 
 (* positional text: the written register carries its identifier left-justified in the identifier columns, is
@@ -16,6 +16,15 @@ Theorem C10_recognised : forall rs i d text, r_delim (nth_reg rs i) = None -> re
   exists body, text = body ++ [NL].
 Proof. exact reg_write_ident_columns. Qed.
 Print Assumptions C10_recognised.
+
+(* delimited text: the identifier is the first token of the written line *)
+Theorem C10_delimited_ident_first : forall rs i d c text, r_delim (nth_reg rs i) = Some [c] ->
+  all_none d = false -> write_elem Text rs (ETyped i d) = Some text ->
+  length (r_ident (nth_reg rs i)) <= r_digits (nth_reg rs i) ->
+  strip is_space (r_ident (nth_reg rs i)) = r_ident (nth_reg rs i) -> ~ In c (r_ident (nth_reg rs i)) ->
+  exists rest, text = r_ident (nth_reg rs i) ++ rest /\ (rest = [NL] \/ exists r', rest = c :: r').
+Proof. exact reg_write_delim_ident_first. Qed.
+Print Assumptions C10_delimited_ident_first.
 
 (* text storage: reading consumes exactly what writing produced -- one line per register -- so k consecutive
    registers stay aligned (position after the i-th read = sum of the first i record lengths), for every k *)
